@@ -693,6 +693,7 @@ func runC18(c *Ctx) {
 			c.Check(fname(rsl)+"#pending-counted-inside-the-window", rsl.Pos(), okPen, ifelse(okPen, "pending headers are compared with resultOffset + limit", "in-flight headers are not compared with the end of the same window"))
 		}
 	}
+	c18Siblings(c, c.W)
 }
 
 func blockReaches(from, to *ssa.BasicBlock) bool {
@@ -722,6 +723,133 @@ func sameGuard(a, h *ssa.BasicBlock) bool {
 // blockReachesAlways: every path from a to a return passes h or h's loop.
 func blockReachesAlways(a, h *ssa.BasicBlock) bool {
 	return mustPassAfter(a.Instrs[0], []ssa.Instruction{h.Instrs[0]}) || mustPassBefore(a.Instrs[0], []ssa.Instruction{h.Instrs[0]})
+}
+
+// c18Siblings: Y10 and Y11.
+func c18Siblings(c *Ctx, w *World) {
+	// ------------------------------------------------------------ Y10
+	c.Rule("C18.Y10", "SIBLINGS", "the three kinds of work never mix: every call in the download queue that hands two or more of the queue's per-kind containers (fields header* / block* / receipt*: task pool, task queue, pending pool, done pool) to a shared helper (reserveHeaders, cancel, expire, deliver) hands containers of ONE kind. A body request that expires into the receipt task queue is never asked of another peer, and the receipt fetcher completes the block's result slot without a body")
+	c.Min(10)
+	{
+		qT := w.Named("you/downloader", "queue")
+		kindOf := func(name string) string {
+			for _, k := range []string{"header", "block", "receipt"} {
+				if strings.HasPrefix(name, k) && len(name) > len(k) && name[len(k)] >= 'A' && name[len(k)] <= 'Z' {
+					return k
+				}
+			}
+			return ""
+		}
+		for _, fn := range w.FuncsIn("you/downloader") {
+			if fn.Blocks == nil || strings.HasSuffix(w.fileOf(fn.Pos()), "_test.go") {
+				continue
+			}
+			k := 0
+			for _, ci := range callInstrs(fn) {
+				kinds := map[string][]string{}
+				n := 0
+				for _, a := range ci.Common().Args {
+					f, base := loadedField(stripConvNoBind(a))
+					if f == nil || base == nil || !types.Identical(deref(base.Type()), qT) {
+						continue
+					}
+					if kd := kindOf(f.Name()); kd != "" {
+						kinds[kd] = append(kinds[kd], f.Name())
+						n++
+					}
+				}
+				if n < 2 {
+					continue
+				}
+				c.sites++
+				c.sawFunc(fname(fn))
+				var ks []string
+				for kd, fs := range kinds {
+					ks = append(ks, kd+": "+strings.Join(fs, ", "))
+				}
+				sort.Strings(ks)
+				c.Check(fmt.Sprintf("%s#call-%d-one-kind-of-containers", fname(fn), k), ci.Pos(), len(kinds) == 1, ifelse(len(kinds) == 1, "containers of one kind ("+ks[0]+")", "the call mixes containers of different kinds ("+strings.Join(ks, "; ")+"): work of one kind is moved into the bookkeeping of another"))
+				k++
+			}
+		}
+	}
+
+	// ------------------------------------------------------------ Y11
+	c.Rule("C18.Y11", "SIBLINGS", "a fetch is declared unnecessary by the same commitment that a delivery is checked against: the predicate ReserveBodies / ReserveReceipts hand to reserveHeaders (which completes the header's result slot on the spot when it answers true) reads exactly the header field(s) that the reconstruct function of DeliverBodies / DeliverReceipts compares the delivered list with (TxHash / ReceiptHash). A body predicate reading the receipt root lets a header with a forged empty receipt root leave the queue with no transactions, never reaching the DeriveSha check")
+	c.Min(2)
+	{
+		hdrT := w.Named("core/types", "Header")
+		funcArg := func(ci ssa.CallInstruction) *ssa.Function {
+			for _, a := range ci.Common().Args {
+				if _, isSig := a.Type().Underlying().(*types.Signature); !isSig {
+					continue
+				}
+				switch v := stripConvNoBind(a).(type) {
+				case *ssa.Function:
+					return v
+				case *ssa.MakeClosure:
+					f, _ := v.Fn.(*ssa.Function)
+					return f
+				}
+			}
+			return nil
+		}
+		var headerFields func(fn *ssa.Function, depth int) map[string]bool
+		headerFields = func(fn *ssa.Function, depth int) map[string]bool {
+			out := map[string]bool{}
+			if fn == nil || fn.Blocks == nil {
+				return out
+			}
+			for _, in := range allInstrs(fn) {
+				if fa, ok := in.(*ssa.FieldAddr); ok && types.Identical(deref(fa.X.Type()), hdrT) {
+					if f := fieldOfAddr(fa); f != nil {
+						out[f.Name()] = true
+					}
+				}
+				if ci, ok := in.(ssa.CallInstruction); ok && depth < 2 {
+					if g := ci.Common().StaticCallee(); g != nil && g.Pkg == fn.Pkg {
+						for f := range headerFields(g, depth+1) {
+							out[f] = true
+						}
+					}
+				}
+			}
+			return out
+		}
+		for _, pair := range [][2]string{{"ReserveBodies", "DeliverBodies"}, {"ReserveReceipts", "DeliverReceipts"}} {
+			rs, dl := w.Fn("you/downloader", "queue", pair[0]), w.Fn("you/downloader", "queue", pair[1])
+			c.sawFunc(fname(rs))
+			c.sawFunc(fname(dl))
+			var noop, recon *ssa.Function
+			for _, ci := range callInstrs(rs) {
+				if f := funcArg(ci); f != nil {
+					noop = f
+				}
+			}
+			for _, ci := range callInstrs(dl) {
+				if f := funcArg(ci); f != nil {
+					recon = f
+				}
+			}
+			c.sites++
+			if noop == nil || recon == nil {
+				c.Undecided(pair[0]+"~"+pair[1], rs.Pos(), "the no-op predicate or the reconstruct function handed to the shared helper was not found")
+				continue
+			}
+			nf, rf := headerFields(noop, 0), headerFields(recon, 0)
+			names := func(m map[string]bool) string {
+				var o []string
+				for f := range m {
+					o = append(o, f)
+				}
+				sort.Strings(o)
+				return strings.Join(o, ",")
+			}
+			same := len(nf) > 0 && names(nf) == names(rf)
+			c.Check(pair[0]+"~"+pair[1]+"#noop-reads-the-verified-commitment", rs.Pos(), same, ifelse(same, "both read header."+names(nf), "the predicate that skips the fetch reads header.{"+names(nf)+"} while deliveries are verified against header.{"+names(rf)+"}: a header can be completed without its content ever being checked"))
+		}
+	}
+
 }
 
 func c18Variants() []Variant {
